@@ -4,6 +4,7 @@ CONSTANTS
   MaxCalls = 6
   Lattice = "L4"
   Protos = {"seg", "pt"}
+  SampleMod = 1
 INIT Init
 NEXT Next
 CONSTRAINT Emit
